@@ -6,6 +6,7 @@ package main
 // scratch copy of the repository by /verif/check; never part of /repo.
 
 import (
+	"io"
 	"bytes"
 	"encoding/base64"
 	"encoding/json"
@@ -94,8 +95,16 @@ type frontResp struct {
 
 func frontInvoke(w *sc.World, body []byte, hdr map[string]string) frontResp {
 	rec := httptest.NewRecorder()
-	req := httptest.NewRequest("POST", "/2015-03-31/functions/function/invocations", bytes.NewReader(body))
+	var rd io.Reader = bytes.NewReader(body)
+	if hdr["__chunked"] != "" {
+		// a client that does not announce the length (Transfer-Encoding: chunked): ContentLength is -1
+		rd = struct{ io.Reader }{rd}
+	}
+	req := httptest.NewRequest("POST", "/2015-03-31/functions/function/invocations", rd)
 	for k, v := range hdr {
+		if strings.HasPrefix(k, "__") {
+			continue
+		}
 		req.Header.Set(k, v)
 	}
 	w.E.Log.Add(vh.Event{Src: "http", Kind: "call", Op: "POST invocations", Len: len(body)})
@@ -191,7 +200,7 @@ func runFront(c *fw.Ctx, d frontDesc) {
 	switch d.Kind {
 	case "roundtrip":
 		os.Setenv("AWS_LAMBDA_FUNCTION_NAME", fmt.Sprintf("fn-front-%d", d.N))
-		sizes := []int{0, 1, 17, 65536, 1 << 20, 6*1024*1024 + 100, 300}
+		sizes := []int{0, 1, 17, 65536, 1 << 20, 6*1024*1024 + 100, 300, 70000, 5}
 		for i, sz := range sizes {
 			body := sc.RandBytes(r, sz)
 			cc := fmt.Sprintf(`{"custom":{"k":"v%d é"},"n":%d}`, i, r.Intn(1000))
@@ -201,6 +210,9 @@ func runFront(c *fw.Ctx, d frontDesc) {
 			h := map[string]string{"X-Amzn-Trace-Id": fmt.Sprintf("Root=1-%08x-aaaa;Sampled=1", i)}
 			if cc != "" {
 				h["X-Amz-Client-Context"] = base64.StdEncoding.EncodeToString([]byte(cc))
+			}
+			if i%2 == 1 || i >= 7 {
+				h["__chunked"] = "1"
 			}
 			resp := frontInvoke(w, body, h)
 			mu.Lock()
